@@ -53,7 +53,7 @@ func elemIs(t types.Type, names ...string) bool {
 		return false
 	}
 	for _, want := range names {
-		if n.Obj().Name() == want {
+		if core.TName(n) == want {
 			return true
 		}
 	}
